@@ -3,6 +3,7 @@
 package checks
 
 import (
+	"strings"
 	"fmt"
 	"os"
 	"encoding/json"
@@ -49,6 +50,7 @@ type histCheck struct {
 	accept    func(v core.Violation) bool
 	rule      string
 	assume    []string
+	sched     []nschedTask // baselines for the schedule exploration part (one deviation at every point)
 }
 
 // runHistCheck runs the explicit-state search for every scenario and reports the violations
@@ -119,16 +121,28 @@ func histCheckInto(rep *core.Report, hc histCheck) {
 	rep.Coverage["states"] = totalS
 	rep.Coverage["transitions"] = totalT
 	rep.Coverage["traces_validated_against_impl"] = totalT
+	if len(hc.sched) > 0 {
+		nodeSchedExplore(rep, pool, hc.prop, hc.sched, nodeSchedKinds, hc.accept)
+	}
 	rep.Coverage["rule"] = hc.rule
 	rep.Assumptions = append(rep.Assumptions, hc.assume...)
 }
 
 var peerAssumption = []string{"peer model P: answers getheaders from the first locator hash on its best chain, serves any block it has, announces best-chain changes with headers after sendheaders, pings", "hist mode merges states that differ only in the phase of polling loops (DESIGN §3.4)", "every explored transition is an execution of the implementation (no separate model): traces_validated_against_impl = transitions"}
 
+func c01Sched() []nschedTask {
+	sc := c01Scenarios(false)
+	return []nschedTask{
+		{P: sc[0], Hist: []string{"ext:2", "ans", "reorg:1:2", "ans", "ans", "tick:250", "back:1", "settle"}},
+		{P: sc[0], Hist: []string{"ext:12", "ans", "ans", "reorg:2:3", "tick:250", "settle"}},
+		{P: sc[1], Hist: []string{"ans", "ans", "reorg:3:4", "ans", "tick:250", "settle"}},
+	}
+}
+
 func runC01() int {
 	return runHistCheck(histCheck{prop: "C01", scenarios: c01Scenarios(false), depthQ: 5, depthT: 7, statesQ: 150000, statesT: 3000000,
-		budgetQ: 150 * time.Second, budgetT: 25 * time.Minute,
-		rule:   "explicit-state BFS over environment histories of the real Node.Run under the controlled scheduler against peer model P: events {answer oldest / second-oldest outstanding request, extend by 1/2/12, reorg depth 1/2, return to the abandoned branch, ping, tick 250 ms, settle (peer answers everything), duplicate last message, clean restart, connection drop}; from every reached state a fair drain (answers, announcements, pings, clock steps incl. 61 s and 601 s) must converge to P's best chain; in-sync clause checked at every HandleInSync",
+		budgetQ: 150 * time.Second, budgetT: 25 * time.Minute, sched: c01Sched(),
+		rule:   "explicit-state BFS over environment histories of the real Node.Run under the controlled scheduler against peer model P: events {answer oldest / second-oldest outstanding request, extend by 1/2/12, reorg depth 1/2, return to the abandoned branch, ping, tick 250 ms, settle (peer answers everything), duplicate last message, clean restart, connection drop}; from every reached state a fair drain (answers, announcements, pings, clock steps incl. 61 s and 601 s) must converge to P's best chain; in-sync clause checked at every HandleInSync. Plus stateless schedule exploration: three baselines (reorg while blocks are outstanding / with a full request window / during the initial sync) with one stall (250 ms) or pre-emption (2 alternatives) inserted at every scheduling point after the boot, judged by the same oracles",
 		assume: peerAssumption})
 }
 
@@ -170,6 +184,16 @@ func DebugHistScenario(name string, idx int, args []string) {
 		}
 	}
 	traceOn = true
+	if pl := os.Getenv("VERIF_PLAN"); pl != "" { // at:kind:alt
+		var st planStep
+		f := strings.Split(pl, ":")
+		fmt.Sscan(f[0], &st.At)
+		st.Kind = f[1]
+		if len(f) > 2 {
+			fmt.Sscan(f[2], &st.Alt)
+		}
+		sc.Plan = []planStep{st}
+	}
 	r := runHist(sc, args, sc.Drain)
 	for _, l := range r.w.trace {
 		println(l)
